@@ -4,7 +4,7 @@
 set -u
 id=$1; patch=$2; shift 2
 name=try-$id-$$
-d=$(/verif/tools/scratch.sh new $name) || exit 2
+d=$(/verif/tools/scratch.sh new $name ${SEED_BASE:-HEAD}) || exit 2
 if ! git -C $d apply "$patch"; then echo "PATCH DOES NOT APPLY"; /verif/tools/scratch.sh rm $name; exit 2; fi
 cd /verif
 VERIF_REPO_SRC=$d/src timeout 1200 ./check $id --no-evidence "$@" 2>&1 | grep -v "^KNOWN-FINDING" | tail -3 | cut -c1-400
